@@ -13,7 +13,7 @@ LEVEL = "exploration"
 SHARDS = {"quick": 8, "thorough": 16}
 RULE = ("cases: (a) enc: msmart _Packet.encode(id, frame) decoded by the independent V2 decoder; (b) dec: packets built by "
         "the independent encoder (varying message id, timestamp, magic, reserved bytes) decoded by _Packet.decode; (c) send: "
-        "LAN.send on a V2 connection against the model device, optionally with the first transmissions lost (retransmissions must decode too) and after another LAN object with a different id sent the same frame. Sweep of all frame lengths 0..255 x boundary ids, plus "
+        "LAN.send on a V2 connection against the model device, optionally through the public Device object, with the device stamping a different id on its replies, with further exchanges on the same object, with the first transmissions lost (retransmissions must decode too) and after another LAN object with a different id sent the same frame. Sweep of all frame lengths 0..255 x boundary ids, plus "
         "Hypothesis-generated frames/ids/clock values. Non-trivial: len(frame)>=1 and (len%16 in {0,15} or id>=2^32 or "
         "frame contains 5A5A). Distinct by (kind, frame, id).")
 ASSUMPTIONS = ["AES block primitive, MD5 shared with the code under test (trusted base)",
@@ -86,9 +86,26 @@ def check_case(case: dict):
                 lan2._disconnect()
                 out["tx2"] = list(dev2.transmissions)
             net.listen("10.0.0.9", 6444, dev)
-            lan = LAN("10.0.0.9", 6444, dev_id)
+            if case.get("api") == "device":
+                # through the public Device object (its id is what the user configured)
+                from msmart.base_device import Device
+                from msmart.const import DeviceType
+
+                class _Cmd:
+                    def tobytes(self_inner):
+                        return frame
+                devobj = Device(ip="10.0.0.9", port=6444, device_id=dev_id, device_type=DeviceType.AIR_CONDITIONER)
+                lan = devobj._lan
+                if devobj.id != dev_id:
+                    out["exc"] = AssertionError(f"Device.id reports {devobj.id:#x} for configured id {dev_id:#x}")
+            else:
+                lan = LAN("10.0.0.9", 6444, dev_id)
             try:
-                out["frames"] = await lan.send(frame, retries=1 + case.get("drop_first", 0))
+                if "exc" not in out:
+                    out["frames"] = await lan.send(frame, retries=1 + case.get("drop_first", 0))
+                    for _ in range(case.get("more_sends", 0)):
+                        # later exchanges on the same object still carry the configured id
+                        await lan.send(frame, retries=1)
             except Exception as e:
                 out["exc"] = e
             out["tx"] = list(dev.transmissions)
@@ -102,7 +119,7 @@ def check_case(case: dict):
                 return ("send/no-timeout", f"expected TimeoutError, got {out.get('exc')!r} / {out.get('frames')}")
         elif "exc" in out:
             return (f"send/raises/{type(out['exc']).__name__}", f"LAN.send raised {out['exc']!r}; device log {out['log']}")
-        want_tx = 1 + case.get("drop_first", 0)
+        want_tx = 1 + case.get("drop_first", 0) + (case.get("more_sends", 0) if replies else 0)
         if len(out["tx"]) != want_tx:
             return ("send/tx-count", f"device decoded {len(out['tx'])} of {want_tx} transmissions; log {out['log']}")
         for _t, _c, rx_frame, rx_id in out["tx"]:
@@ -163,7 +180,9 @@ def run(ctx) -> None:
     send_cases = st.fixed_dictionaries({
         "kind": st.just("send"), "frame": hexb(gens.frames_bytes(255)), "id": gens.device_ids(64),
         "replies": st.lists(hexb(gens.frames_bytes(120)), min_size=0, max_size=3),
-        "ts": st.floats(min_value=0, max_value=1e9, allow_nan=False)}, optional={"drop_first": st.integers(0, 2), "other_id": gens.device_ids(64)})
+        "ts": st.floats(min_value=0, max_value=1e9, allow_nan=False)}, optional={"drop_first": st.integers(0, 2), "other_id": gens.device_ids(64), "api": st.sampled_from(["lan", "device"]),
+                  "reply_id": gens.device_ids(64), "more_sends": st.integers(0, 2)}).map(
+        lambda c: c if c["replies"] else {k: v for k, v in c.items() if k != "more_sends"})
 
     def runner(case):
         return _run_one(ctx, case)
